@@ -383,16 +383,44 @@ func httpDate(t time.Time) string { return t.UTC().Format("Mon, 02 Jan 2006 15:0
 // ---------------------------------------------------------------------------------------------
 // history generation
 
-func genJarCookie(r *gen.Rand, viaResponse bool, pathless bool) jarCookie {
+// defaultPath is RFC 6265 5.1.4: the path a cookie without Path attribute gets from the request.
+func defaultPath(reqPath string) string {
+	if reqPath == "" || reqPath[0] != '/' {
+		return "/"
+	}
+	i := strings.LastIndexByte(reqPath, '/')
+	if i == 0 {
+		return "/"
+	}
+	return reqPath[:i]
+}
+
+// genJarCookie draws a cookie. pathless: the API cannot carry a path (SetKeyValue). reqPath: path
+// of the request whose response carries the cookie (viaResponse).
+//
+// The names bound to "/" and to "no path" are one class: a cookie without path belongs to "/"
+// (the jar's own rule, and RFC 6265 for a response to a request whose default-path is "/").
+// For these names every write chooses afresh between "Path=/" and no path at all, so the same
+// cookie is set one way and refreshed or deleted the other way. A response omits the Path
+// attribute only where the default-path of its request is "/" - elsewhere RFC 6265 and "no path
+// means /" disagree and nothing is asserted.
+func genJarCookie(r *gen.Rand, viaResponse bool, pathless bool, reqPath string) jarCookie {
 	var n struct{ name, path string }
 	for {
 		n = jarNames[r.Intn(len(jarNames))]
-		if !pathless || n.path == "" {
+		if !pathless || len(n.path) <= 1 {
 			break
 		}
 	}
 	ck := jarCookie{Name: n.name, Path: n.path}
+	if len(n.path) <= 1 {
+		ck.Path = gen.Pick(r, []string{"", "/"})
+		if viaResponse && defaultPath(reqPath) != "/" {
+			ck.Path = "/"
+		}
+	}
 	if pathless {
+		ck.Path = ""
 		return ck
 	}
 	switch r.PickW(5, 4, 2) {
@@ -441,7 +469,7 @@ func genJarHistory(r *gen.Rand) []jarOp {
 			}
 			seen := map[string]bool{}
 			for j := 0; j < k; j++ {
-				ck := genJarCookie(r, false, pathless)
+				ck := genJarCookie(r, false, pathless, "")
 				if seen[ck.Name] {
 					continue
 				}
@@ -454,7 +482,7 @@ func genJarHistory(r *gen.Rand) []jarOp {
 			k := r.Range(0, 2)
 			seen := map[string]bool{}
 			for j := 0; j < k; j++ {
-				ck := genJarCookie(r, true, false)
+				ck := genJarCookie(r, true, false, op.Path)
 				if seen[ck.Name] {
 					continue
 				}
@@ -569,7 +597,10 @@ func (je *jarEngine) runHistory(c *ev.Case, reuse bool, ops []jarOp) {
 					ck.Value = "d" + strconv.Itoa(je.nextID)
 				}
 				w := &jarWrite{id: je.nextID, op: i, host: op.Host, hostname: hostName(op.Host), ck: *ck, via: "response", at: now()}
-				line := ck.Name + "=" + ck.Value + "; Path=" + ck.Path
+				line := ck.Name + "=" + ck.Value
+				if ck.Path != "" {
+					line += "; Path=" + ck.Path
+				}
 				switch {
 				case ck.Delete == "max-age-0":
 					line += "; Max-Age=0"
